@@ -129,6 +129,15 @@ def foreachZipM (a1 a2 : ArraySized) (m : Mem) : List (Elem × Option Elem) × M
       | none => (acc, r.2.2.2)
   go (a1.size + 1) {} m []
 
+/-- the size limit as an environment input of the ideal sequence: an insertion into a full array
+whose next capacity (in records or in bytes) would exceed `CC_MAX_ELEMENTS` is refused with
+`CC_ERR_MAX_CAPACITY` before any allocation; the ideal list has no capacity, so the driver
+computes this from the configuration (capacity, growth rule, element size) -/
+def limitRefusal (a : ArraySized) (fired : Nat) : Option Stat :=
+  if a.size ≥ a.capacity && (a.capacity == Gen.CC_MAX_ELEMENTS || Gen.CC_MAX_ELEMENTS / a.dataLen < a.nextCapacity)
+  then some .errMaxCapacity
+  else if fired > 0 then some .errAlloc else none
+
 def noSession (s : Sess) (m : Mem) : Sess × String × String :=
   ({ s with mem := m }, "S st=- nosession", s!"M st=- nosession | - | {fmtMem m} | {fmtFlags true m}")
 
@@ -227,7 +236,7 @@ def step (s : Sess) (c : Cmd) : Sess × String × String :=
           fin r.2.2.1 r.2.2.2.1 r.2.2.2.2 sr.2.2 (hdr (some sr.1) (pr sr.2.1 sr.1)) (hdr (some r.1) (pr r.2.1 r.1))
         | "it_add" =>
           let r := ArraySized.iterAdd it a e m
-          let (sst, cur') := match refusal with | some st => (st, cur) | none => (Stat.ok, cur.add e)
+          let (sst, cur') := match limitRefusal a c.fired with | some st => (st, cur) | none => (Stat.ok, cur.add e)
           fin r.2.1 r.2.2.1 r.2.2.2 cur' (hdr (some sst)) (hdr (some r.1))
         | "it_replace" =>
           let r := ArraySized.iterReplace it a e m
@@ -266,8 +275,8 @@ def step (s : Sess) (c : Cmd) : Sess × String × String :=
           none (if showCb then some (fmtCb o.cb pairs) else none)
       lines (h sr.1) (h r.1) (upd r.2.1 sr.2 r.2.2)
     match c.op with
-    | "add" => core (.add e) false false refusal
-    | "add_at" => core (.addAt (enc dl (c.arg 0)) (c.arg 1)) false false refusal
+    | "add" => core (.add e) false false (limitRefusal a c.fired)
+    | "add_at" => core (.addAt (enc dl (c.arg 0)) (c.arg 1)) false false (limitRefusal a c.fired)
     | "replace_at" => core (.replaceAt e (c.arg 1)) false false none
     | "swap_at" => core (.swapAt (c.arg 0) (c.arg 1)) false false none
     | "remove" => core (.remove e) false false none
